@@ -1,2 +1,230 @@
-import DuneVerif.Common.Proto
-def main : IO Unit := DV.runDriver fun _ => "bad-op"
+import DuneVerif.Model.C14
+/-! line-protocol driver for C14 (see harness/cxx_c14.cc for the op lines)
+
+    map     IT PAT LAY CTOR EXTS [STRIDES]
+    conv    IT PAT LAY KIND EXTS [STRIDES]
+    mdspan  IT PAT LAY ACC  EXTS [STRIDES]
+    mdarray IT PAT LAY CTOR ACC EXTS
+    span    N EXT : op;op;…
+-/
+open DV DV.C14
+
+def showB (b : Bool) : String := if b then "true" else "false"
+
+def parsePattern (s : String) : Option Pattern :=
+  if s == "-" then some []
+  else s.toList.mapM fun c =>
+    if c == 'd' then some none
+    else if '0' ≤ c ∧ c ≤ '9' then some (some (c.toNat - '0'.toNat))
+    else none
+
+def parseLayout : String → Option Layout
+  | "left" => some .left
+  | "right" => some .right
+  | "stride" => some .stride
+  | _ => none
+
+def validIT (s : String) : Bool := s == "int" || s == "size" || s == "short"
+
+def buildExtents (p : Pattern) (ctor : String) (full : List Nat) : Option Extents :=
+  if !compatible p full then none else
+  match ctor with
+  | "vfull" | "afull" | "sfull" => initDynamic p full
+  | "vdyn" | "adyn" | "sdyn" => initDynamic p (dynPart p full)
+  | _ => none
+
+def mkMapping (lay : Layout) (e : Extents) (strides : List Nat) : Mapping :=
+  { lay := lay, rank := e.rank, ext := e.extent, str := arr strides }
+
+def extOf (m : Mapping) : List Nat := toList m.rank m.ext
+
+def mapBlock (m : Mapping) : String :=
+  let extL := extOf m
+  let strs := if m.rank = 0 then [] else toList m.rank m.stride
+  "ext=" ++ showList extL ++ " rss=" ++ toString m.requiredSpan ++ " str=" ++ showList strs ++
+  " exh=" ++ showB m.isExhaustive ++ " offs=" ++ showList ((allTuples extL).map fun t => m.offset (arr t))
+
+def showSext (p : Pattern) : String :=
+  showList (p.map fun e => match e with | some s => (s : Int) | none => -1)
+
+/-- common prefix of the mapping ops: `IT PAT LAY X EXTS [STRIDES]` → (pattern, layout, X, extents, mapping) -/
+def parseMapping (ws : List String) (ctorOf : String → String) :
+    Option (Pattern × Layout × String × Extents × Mapping) :=
+  match ws with
+  | it :: pat :: lay :: x :: exts :: rest =>
+    if !validIT it then none else
+    match parsePattern pat, parseLayout lay, parseNatList? exts with
+    | some p, some l, some full =>
+      match buildExtents p (ctorOf x) full with
+      | none => none
+      | some e =>
+        match l, rest with
+        | .stride, [ss] =>
+          match parseNatList? ss with
+          | some strides => if strides.length = p.length then some (p, l, x, e, mkMapping l e strides) else none
+          | none => none
+        | .stride, _ => none
+        | _, [] => some (p, l, x, e, mkMapping l e [])
+        | _, _ => none
+    | _, _, _ => none
+  | _ => none
+
+def showOpt (o : Option Int) : String := match o with | some v => toString v | none => "OOB"
+
+def readAll (a : Md) : String :=
+  "[" ++ ",".intercalate ((allTuples (extOf a.map)).map fun t => showOpt (a.get? (arr t))) ++ "]"
+
+def writeAll (a : Md) : Md :=
+  ((allTuples (extOf a.map)).foldl (fun (st : Md × Nat) t => (st.1.set (arr t) (100 + st.2), st.2 + 1)) (a, 0)).1
+
+def iotaInt (n : Nat) (f : Nat → Int) : List Int := (List.range n).map f
+
+def handleMap (ws : List String) : String :=
+  match parseMapping ws id with
+  | some (p, _, _, _, m) =>
+    "rank=" ++ toString p.length ++ " rdyn=" ++ toString (rankDynamic p) ++ " sext=" ++ showSext p ++ " " ++ mapBlock m
+  | none => "bad-op"
+
+def handleConv (ws : List String) : String :=
+  match parseMapping ws (fun _ => "afull") with
+  | some (p, l, kind, e, m) =>
+    match kind with
+    | "stride" =>
+      let mid := m.toStride
+      match mid.convertTo l with
+      | some fin => "mid=" ++ mapBlock mid ++ " fin=" ++ mapBlock fin
+      | none => "bad-op"
+    | "dyn" =>
+      let pd : Pattern := p.map fun _ => none
+      match Extents.convert pd e with
+      | none => "bad-op"
+      | some e2 =>
+        let m2 : Mapping := { lay := l, rank := e2.rank, ext := e2.extent, str := fun r => m.stride r }
+        match Extents.convert p e2 with
+        | none => "bad-op"
+        | some e3 =>
+          let m3 : Mapping := { lay := l, rank := e3.rank, ext := e3.extent, str := fun r => m2.stride r }
+          "eq=" ++ showB (e2.beq e) ++ " mid=" ++ mapBlock m2 ++ " fin=" ++ mapBlock m3
+    | "lr" =>
+      let other : Option Layout := match l with | .left => some .right | .right => some .left | .stride => none
+      match other with
+      | none => "bad-op"
+      | some o =>
+        match m.convertTo o with
+        | none => "bad-op"
+        | some mid =>
+          match mid.convertTo l with
+          | some fin => "mid=" ++ mapBlock mid ++ " fin=" ++ mapBlock fin
+          | none => "bad-op"
+    | "toleft" | "toright" =>
+      if l ≠ .stride then "bad-op" else
+      match m.convertTo (if kind == "toleft" then .left else .right) with
+      | some fin => "fin=" ++ mapBlock fin
+      | none => "bad-op"
+    | _ => "bad-op"
+  | none => "bad-op"
+
+def validAcc (acc : String) (rank : Nat) : Bool :=
+  acc == "call" || acc == "arr" || acc == "span" || (acc == "br" && rank == 1)
+
+def handleMdspan (ws : List String) : String :=
+  match parseMapping ws (fun _ => "afull") with
+  | some (p, _, acc, _, m) =>
+    if !validAcc acc p.length then "bad-op" else
+    let a : Md := ⟨m, iotaInt m.requiredSpan fun k => (k : Int)⟩
+    let b := writeAll a
+    "size=" ++ toString (mdSize m.rank m.ext) ++ " empty=" ++ showB (mdSize m.rank m.ext == 0) ++
+    " ext=" ++ showList (extOf m) ++ " elems=" ++ readAll a ++ " store=" ++ showList b.data ++ " conv=" ++ readAll b
+  | none => "bad-op"
+
+def handleMdarray (ws : List String) : String :=
+  match ws with
+  | it :: pat :: lay :: ctor :: acc :: exts :: [] =>
+    match parseMapping [it, pat, lay, ctor, exts] (fun _ => "afull") with
+    | some (p, l, _, _, m) =>
+      if l == .stride || !validAcc acc p.length then "bad-op" else
+      let rss := m.requiredSpan
+      let init : Option Md :=
+        match ctor with
+        | "ext" | "map" | "alloc" => some (Md.new m 0)
+        | "variadic" => if p.length = 0 then none else some (Md.new m 0)
+        | "extval" | "mapval" | "allocval" => some (Md.new m 7)
+        | "cont" | "contmv" | "copy" | "conv" => some ⟨m, iotaInt rss fun k => 10 + (k : Int)⟩
+        | "span" | "spanal" => some (Md.fromMdspan m ⟨m, iotaInt rss fun k => 3 * (k : Int) + 1⟩)
+        | "strided" => some (Md.fromMdspan m ⟨m.toStride, iotaInt rss fun k => 3 * (k : Int) + 1⟩)
+        | _ => none
+      match init with
+      | none => "bad-op"
+      | some a =>
+        let b := writeAll a
+        "csize=" ++ toString a.data.length ++ " size=" ++ toString (mdSize m.rank m.ext) ++ " ext=" ++ showList (extOf m) ++
+        " init=" ++ showList a.data ++ " cont=" ++ showList b.data ++ " view=" ++ readAll b
+    | none => "bad-op"
+  | _ => "bad-op"
+
+def showExt (e : Option Nat) : String := match e with | some n => toString n | none => "d"
+
+def parseCount (s : String) : Option (Option Nat) :=
+  if s == "d" then some none else s.toNat?.map some
+
+/-- one span operation: new current span (with its static extent) and the observation -/
+def spanOp (mem : List Int) (ext : Option Nat) (s : Span) (op : String) : Option (Option Nat × Span × String) :=
+  let obs (e : Option Nat) (t : Span) : Option (Option Nat × Span × String) :=
+    some (e, t, "ext=" ++ showExt e ++ " size=" ++ toString t.size ++ " elems=" ++ showList (t.elems mem))
+  match tokens op with
+  | ["first", c] => c.toNat?.bind fun c => (s.first c).bind fun t => obs none t
+  | ["last", c] => c.toNat?.bind fun c => (s.last c).bind fun t => obs none t
+  | ["sub", o, c] => o.toNat?.bind fun o => (parseCount c).bind fun c => (s.subspan o c).bind fun t => obs none t
+  | ["tfirst", c] => c.toNat?.bind fun c => if c > 4 then none else (s.first c).bind fun t => obs (some c) t
+  | ["tlast", c] => c.toNat?.bind fun c => if c > 4 then none else (s.last c).bind fun t => obs (some c) t
+  | ["tsub", o, c] => o.toNat?.bind fun o => (parseCount c).bind fun c =>
+      if o > 4 || (match c with | some c => decide (c > 4) | none => false) then none
+      else (s.subspan o c).bind fun t => obs (subspanExtent ext o c) t
+  | ["at", i] => i.toNat?.bind fun i =>
+      some (ext, s, "at=" ++ (match s.at? mem i with | some v => toString v | none => "ERR:Range"))
+  | ["fb"] =>
+      if s.size = 0 then none
+      else some (ext, s, "front=" ++ showOpt mem[s.off]? ++ " back=" ++ showOpt mem[s.off + (s.size - 1)]?)
+  | ["iter"] =>
+      some (ext, s, "fwd=" ++ showList (s.elems mem) ++ " rev=" ++ showList (s.elems mem).reverse ++
+        " bytes=" ++ toString (4 * s.size) ++ " empty=" ++ showB (s.size == 0))
+  | ["conv"] =>
+      some (none, s, "ext=d size=" ++ toString s.size ++ " elems=" ++ showList (s.elems mem))
+  | _ => none
+
+def handleSpan (line : String) : String :=
+  match line.splitOn " : " with
+  | [hd, ops] =>
+    match tokens hd with
+    | ["span", n, ext] =>
+      match n.toNat?, parseCount ext with
+      | some n, some ext =>
+        if (match ext with | some e => e != n || e > 4 | none => false) || n > 64 then "bad-op" else
+        let mem := iotaInt n fun k => 10 + (k : Int)
+        let rec go (ops : List String) (ext : Option Nat) (s : Span) (acc : List String) (first : Bool) : Option (List String) :=
+          match ops with
+          | [] => some acc.reverse
+          | op :: rest =>
+            -- template versions exist only as the first operation (on the typed span)
+            let isT := (tokens op).head? |>.map (fun t => t == "tfirst" || t == "tlast" || t == "tsub") |>.getD false
+            if isT && !first then none else
+            match spanOp mem ext s op with
+            | some (e, t, o) => go rest e t (o :: acc) false
+            | none => none
+        match go (ops.splitOn ";") ext ⟨0, n⟩ [] true with
+        | some obs => ";".intercalate obs
+        | none => "bad-op"
+      | _, _ => "bad-op"
+    | _ => "bad-op"
+  | _ => "bad-op"
+
+def handle (line : String) : String :=
+  match tokens line with
+  | "map" :: ws => handleMap ws
+  | "conv" :: ws => handleConv ws
+  | "mdspan" :: ws => handleMdspan ws
+  | "mdarray" :: ws => handleMdarray ws
+  | "span" :: _ => handleSpan line
+  | _ => "bad-op"
+
+def main : IO Unit := runDriver handle
